@@ -1,7 +1,8 @@
 /-
 Line-protocol driver for C19 (GenTL C API).  Stateful across lines:
 
-  cfg path|sysxml|ifxml <hex>     set an environment parameter            -> ok
+  cfg <key> <hex> / cfgn <key> <n>   set an environment parameter (path, XML, error texts,
+                                  module constants; see `setBytes` / `setNat`)  -> ok
   layout                          register tables of both modules         -> sys ... | if ...
   seq <op> ; <op> ; ...           run one call sequence from the initial  -> <result> ; <result> ...
                                   state (library not initialised)
@@ -28,8 +29,9 @@ def parseDst (tok : String) : Option Dst :=
   if tok.startsWith "null:" then (tok.drop 5).toString.toNat?.map fun n => ⟨none, n⟩
   else tok.toNat?.map fun cap => ⟨some (pattern cap), cap⟩
 
-def ifaceId (kind : String) : Option Bytes :=
-  if kind == "good" then some INTERFACE_ID
+/-- `good` = the id the probe obtained from TLGetInterfaceID (`cfg goodid`) -/
+def ifaceId (good : Bytes) (kind : String) : Option Bytes :=
+  if kind == "good" then some good
   else if kind == "bad" then some (asc "no-such-interface")
   else if kind == "empty" then some []
   else if kind == "utf8" then some (asc "caf" ++ [0xc3, 0xa9])
@@ -63,7 +65,7 @@ def devId (kind : String) : Option Bytes :=
   else if kind == "empty" then some []
   else none
 
-def parseOp : List String → Option Call
+def parseOp (good : Bytes) : List String → Option Call
   | ["init"] => some .initLib
   | ["gcinfo"] => some .gcGetInfo
   | ["ifnum", h] => h.toNat?.map .ifGetNumDevices
@@ -84,8 +86,8 @@ def parseOp : List String → Option Call
   | ["tlifid", h, i, d] => do pure (.info (.tlGetInterfaceID (← h.toNat?) (← i.toNat?)) (← parseDst d))
   | ["tlinfo", h, c, d] => do pure (.info (.tlGetInfo (← h.toNat?) (← c.toInt?)) (← parseDst d))
   | ["tlifinfo", h, id, c, d] => do
-    pure (.info (.tlGetInterfaceInfo (← h.toNat?) (← ifaceId id) (← c.toInt?)) (← parseDst d))
-  | ["tlopenif", h, id, k] => do pure (.tlOpenInterface (← h.toNat?) (← ifaceId id) (← k.toNat?))
+    pure (.info (.tlGetInterfaceInfo (← h.toNat?) (← ifaceId good id) (← c.toInt?)) (← parseDst d))
+  | ["tlopenif", h, id, k] => do pure (.tlOpenInterface (← h.toNat?) (← ifaceId good id) (← k.toNat?))
   | ["ifinfo", h, c, d] => do pure (.info (.ifGetInfo (← h.toNat?) (← c.toInt?)) (← parseDst d))
   | ["portinfo", h, c, d] => do pure (.info (.gcGetPortInfo (← h.toNat?) (← c.toInt?)) (← parseDst d))
   | ["porturl", h, d] => do pure (.info (.gcGetPortURL (← h.toNat?)) (← parseDst d))
@@ -99,7 +101,7 @@ def parseOp : List String → Option Call
     pure (.gcWritePort (← h.toNat?) (← a.toNat?) n d)
   | "reads" :: h :: _cnt :: rest => do pure (.gcReadPortStacked (← h.toNat?) (← parsePairsR rest))
   | "writes" :: h :: _cnt :: rest => do pure (.gcWritePortStacked (← h.toNat?) (← parsePairsW rest))
-  | t :: rest => if t.startsWith "np:" then (parseOp rest).map .nullPtr else none
+  | t :: rest => if t.startsWith "np:" then (parseOp good rest).map .nullPtr else none
   | _ => none
 
 def showOpt {α} (f : α → String) : Option α → String
@@ -166,41 +168,90 @@ def showMap (m : MapDecl) : String :=
   " ".intercalate (m.regs.map fun r => s!"{r.name}:{r.addr}:{r.len}:{accessName r.access}")
     ++ s!" size={m.size} layoutOk={layoutOk 0 m.regs}"
 
-def handleSeq (env : Env) (toks : List String) : String :=
-  let ops := (splitOps toks).map parseOp
+def handleSeq (env : Env) (good : Bytes) (toks : List String) : String :=
+  let ops := (splitOps toks).map (parseOp good)
   if ops.any (·.isNone) then "bad-op"
   else " ; ".intercalate (runShow env (State.init env) (ops.filterMap id))
 
-partial def loop (hin hout : IO.FS.Stream) (env : Env) : IO Unit := do
+def emptyConsts : ModConsts := ⟨[], [], [], [], [], [], [], 0, 0, 0⟩
+
+def emptyEnv : Env :=
+  { path := [], sysXml := [], ifXml := [], errText := fun _ => [], noErrorText := [], notAsciiText := [],
+    sys := emptyConsts, ifc := emptyConsts, gentlMajor := 0, gentlMinor := 0,
+    schemaMajor := 0, schemaMinor := 0, schemaSub := 0 }
+
+def setConstBytes (c : ModConsts) (field : String) (b : Bytes) : Option ModConsts :=
+  if field == "id" then some { c with id := b }
+  else if field == "vendor" then some { c with vendor := b }
+  else if field == "model" then some { c with model := b }
+  else if field == "tltype" then some { c with tlType := b }
+  else if field == "display" then some { c with displayName := b }
+  else if field == "port" then some { c with portName := b }
+  else if field == "module" then some { c with moduleType := b }
+  else none
+
+def setConstNat (c : ModConsts) (field : String) (n : Nat) : Option ModConsts :=
+  if field == "major" then some { c with verMajor := n }
+  else if field == "minor" then some { c with verMinor := n }
+  else if field == "sub" then some { c with verSub := n }
+  else none
+
+/-- `cfg <key> <hex>` -/
+def setBytes (env : Env) (key : String) (b : Bytes) : Option Env :=
+  if key == "path" then some { env with path := b }
+  else if key == "sysxml" then some { env with sysXml := b }
+  else if key == "ifxml" then some { env with ifXml := b }
+  else if key == "noerror" then some { env with noErrorText := b }
+  else if key == "notascii" then some { env with notAsciiText := b }
+  else if key.startsWith "sys." then (setConstBytes env.sys (key.drop 4).toString b).map fun c => { env with sys := c }
+  else if key.startsWith "if." then (setConstBytes env.ifc (key.drop 3).toString b).map fun c => { env with ifc := c }
+  else if key.startsWith "errtext." then
+    (key.drop 8).toString.toNat?.map fun i =>
+      let old := env.errText
+      { env with errText := fun k => if k = i then b else old k }
+  else none
+
+/-- `cfgn <key> <nat>` -/
+def setNat (env : Env) (key : String) (n : Nat) : Option Env :=
+  if key == "gentl.major" then some { env with gentlMajor := n }
+  else if key == "gentl.minor" then some { env with gentlMinor := n }
+  else if key == "schema.major" then some { env with schemaMajor := n }
+  else if key == "schema.minor" then some { env with schemaMinor := n }
+  else if key == "schema.sub" then some { env with schemaSub := n }
+  else if key.startsWith "sys." then (setConstNat env.sys (key.drop 4).toString n).map fun c => { env with sys := c }
+  else if key.startsWith "if." then (setConstNat env.ifc (key.drop 3).toString n).map fun c => { env with ifc := c }
+  else none
+
+partial def loop (hin hout : IO.FS.Stream) (env : Env) (good : Bytes) : IO Unit := do
   let line ← hin.getLine
   if line.isEmpty then return ()
   match tokens line with
-  | ["cfg", "path", h] =>
+  | ["cfg", "goodid", h] =>
     match hexToBytes h with
-    | some b => hout.putStrLn "ok"; loop hin hout { env with path := b }
-    | none => hout.putStrLn "bad-op"; loop hin hout env
-  | ["cfg", "sysxml", h] =>
-    match hexToBytes h with
-    | some b => hout.putStrLn "ok"; loop hin hout { env with sysXml := b }
-    | none => hout.putStrLn "bad-op"; loop hin hout env
-  | ["cfg", "ifxml", h] =>
-    match hexToBytes h with
-    | some b => hout.putStrLn "ok"; loop hin hout { env with ifXml := b }
-    | none => hout.putStrLn "bad-op"; loop hin hout env
+    | some b => hout.putStrLn "ok"; loop hin hout env b
+    | none => hout.putStrLn "bad-op"; loop hin hout env good
+  | ["cfg", key, h] =>
+    match (hexToBytes h).bind (setBytes env key) with
+    | some env' => hout.putStrLn "ok"; loop hin hout env' good
+    | none => hout.putStrLn "bad-op"; loop hin hout env good
+  | ["cfgn", key, n] =>
+    match n.toNat?.bind (setNat env key) with
+    | some env' => hout.putStrLn "ok"; loop hin hout env' good
+    | none => hout.putStrLn "bad-op"; loop hin hout env good
   | ["layout"] =>
     hout.putStrLn s!"sys {showMap (sysMap env)} | if {showMap (ifMap env)}"
-    loop hin hout env
+    loop hin hout env good
   | "seq" :: rest =>
-    hout.putStrLn (handleSeq env rest)
-    loop hin hout env
+    hout.putStrLn (handleSeq env good rest)
+    loop hin hout env good
   | _ =>
     hout.putStrLn "bad-op"
-    loop hin hout env
+    loop hin hout env good
 
 end Driver.C19
 
 def main : IO Unit := do
   let hin ← IO.getStdin
   let hout ← IO.getStdout
-  Driver.C19.loop hin hout ⟨[], [], []⟩
+  Driver.C19.loop hin hout Driver.C19.emptyEnv []
   hout.flush
